@@ -3,11 +3,13 @@
 //!        [1, flow, len]        client datagram on flow (payload = len bytes tagged with a running number)
 //!        [2, ms]               sleep
 //!        [3]                   observe: open outbound sockets (gauge), multiplexer alive
+//!        [4]                   observe: socket descriptors open in this process now and before the first operation, gauge, multiplexer alive
 //!      flows: index into the fixed table below (client source address, destination kind)
 //! out: per op:
 //!        datagram -> [1, server_got (0|1), distinct source-port id at the server, reply_got (0|1), reply label ok (0|1)]
 //!        sleep    -> [2]
 //!        observe  -> [3, gauge, alive]
+//!        observe  -> [4, socket descriptors now, socket descriptors before the first operation, gauge, alive]
 use crate::util::*;
 use std::collections::HashMap;
 use std::net::SocketAddr;
@@ -68,6 +70,12 @@ pub fn run(toks: Vec<Tok>) -> Vec<Tok> {
         let mut out = vec![];
         let mut counter: u8 = 0;
         let mut ports: HashMap<u16, u128> = HashMap::new();
+        // the descriptors of everything that is not a flow (echo servers, runtime), counted before any flow exists
+        tokio::time::sleep(Duration::from_millis(20)).await;
+        let fd_baseline = open_socket_fds();
+        if fd_baseline.is_none() && toks[1..].iter().any(|op| op[0] == 4) {
+            return vec![vec![996]];
+        }
         for op in &toks[1..] {
             match op[0] {
                 1 => {
@@ -111,6 +119,12 @@ pub fn run(toks: Vec<Tok>) -> Vec<Tok> {
                 2 => {
                     tokio::time::sleep(Duration::from_millis(op[1] as u64)).await;
                     out.push(vec![2]);
+                }
+                4 => {
+                    tokio::time::sleep(Duration::from_millis(30)).await;
+                    let Some(now) = open_socket_fds() else { return vec![vec![996]] };
+                    let g = metrics::snapshot(&ctx).outbound_udp_sockets;
+                    out.push(vec![4, now, fd_baseline.unwrap_or(0), g.max(0) as u128, (!mux.is_finished()) as u128]);
                 }
                 _ => {
                     // let the pipe finish what the last datagram triggered
